@@ -5,6 +5,7 @@ import KdVerif.Spec.PyIRExpected
 import KdVerif.Model.PyIRCs
 import KdVerif.Gen.PyIRCs
 import KdVerif.Spec.PyIRCsExpected
+import Driver.Cmd.Callstacks
 open KdVerif
 namespace Driver.PyIR
 open KdVerif.PyIR
@@ -78,10 +79,10 @@ def cmdCheck : Cmd := fun _ =>
   if d.isEmpty then "same" else
     "differs " ++ ",".intercalate d ++ (if unsupported then " unsupported" else "")
 
-/-! ### callstacks_parser.py -/
+/-! ### callstacks_parser.py, PyKdebugParser.callstacks -/
 
 def csUnsupported : Bool :=
-  Gen.PyIRCs.insertImage.body.hasUnsupported || Gen.PyIRCs.frameLoop.body.hasUnsupported || !Gen.PyIRCs.notes.isEmpty
+  Gen.PyIRCs.prog.hasUnsupported || Gen.PyIRCs.frameLoop.body.hasUnsupported || !Gen.PyIRCs.notes.isEmpty
 
 def parseAnn (s : String) : Option (Nat × Bytes) :=
   match s.splitOn ":" with
@@ -115,7 +116,7 @@ def cmdCsIR : Cmd
       match csInsertAll Callstacks.Images.empty as with
       | .error e => "err " ++ e.name
       | .ok st =>
-        match PyIRCs.run Gen.PyIRCs.frameLoop [.sample fs] st with
+        match PyIRCs.run Gen.PyIRCs.frameLoop [.trace (.sample [] (some fs))] st with
         | .ok (.frames l, st') =>
           "ok " ++ natListC st'.addrs ++ "|" ++ ",".intercalate (st'.uuids.map toHex) ++ "|" ++
             ",".intercalate (l.map showFrameV)
@@ -124,15 +125,117 @@ def cmdCsIR : Cmd
     | _, _ => "bad-op"
   | _ => "bad-op"
 
-/-- `csircheck` : are the generated blocks the expected ones (`C15.source_is_expected_ir`)? -/
+/-- One trace object: `s:<ts>.<tid>,…:<frame,… | - | N>` (a PerfEvent: its ktraces, its cs_frames — `-` the empty list,
+    `N` None), `i:<addr>:<uuidhex>` (a DyldUuidMapA), `l:<addr>.<uuidhex>,… | l:-` (a DyldLaunchExecutable with its
+    uuid_map_a), `o` (any other trace). -/
+def parseImgPair (p : String) : Option (Nat × Bytes) :=
+  match p.splitOn "." with
+  | [a, u] => do let n ← a.toNat?; let b ← ofHex (unDash u); pure (n, b)
+  | _ => none
+
+def parseKT (p : String) : Option PyIRCs.KT :=
+  match p.splitOn "." with
+  | [a, b] => do let x ← a.toNat?; let y ← b.toNat?; pure ⟨x, y⟩
+  | _ => none
+
+def parseTrace (s : String) : Option PyIRCs.Trace :=
+  match s.splitOn ":" with
+  | ["o"] => some .other
+  | ["i", a, u] => do let n ← a.toNat?; let b ← ofHex (unDash u); pure (.image n b)
+  | ["l", l] => if l = "-" then some (.launch []) else ((l.splitOn ",").mapM parseImgPair).map .launch
+  | ["s", k, f] => do
+    let kts ← if k = "-" then some [] else (k.splitOn ",").mapM parseKT
+    let cs ← if f = "N" then some none else (parseNatList f).map some
+    pure (.sample kts cs)
+  | _ => none
+
+def parseTraces (s : String) : Option (List PyIRCs.Trace) :=
+  if s = "-" then some [] else (s.splitOn ";").mapM parseTrace
+
+/-- the two lists `a,b,…|u,v,…` (`-` = empty) -/
+def parseImages (s : String) : Option Callstacks.Images :=
+  match s.splitOn "|" with
+  | [a, u] => do
+    let as ← parseNatList a
+    let us ← if u = "-" then some [] else (u.splitOn ",").mapM fun h => ofHex (unDash h)
+    pure ⟨as, us⟩
+  | _ => none
+
+def showVal : PyIRCs.Val → String
+  | .callstack c => s!"{c.timestamp}/{c.tid}/" ++ ",".intercalate (c.frames.map showFrameV)
+  | _ => "?"
+
+def showOuts (o : List PyIRCs.Val) : String := if o.isEmpty then "-" else ";".intercalate (o.map showVal)
+
+def showLists (st : Callstacks.Images) : String :=
+  (if st.addrs.isEmpty then "-" else natListC st.addrs) ++ "|" ++
+    (if st.uuids.isEmpty then "-" else ",".intercalate (st.uuids.map fun u => if u.isEmpty then "-" else toHex u))
+
+/-- the callstacks delivered, then the two lists — or the exception -/
+def showGenRes : PyIRCs.GenRes → String
+  | (o, .ok st) => "ok " ++ showOuts o ++ " " ++ showLists st
+  | (o, .error e) => "err " ++ e.name ++ " after " ++ showOuts o
+
+/-- `csfeed <lists> <trace;…>` : the GENERATED whole `feed_generator` (calling the GENERATED `insert_image`) on a
+    `CallstacksParser` whose two lists hold `<lists>`, over the trace objects; answer: callstacks yielded, final lists /
+    exception. -/
+def cmdCsFeed : Cmd
+  | [lists, traces] =>
+    if csUnsupported then "unsupported" else
+    match parseImages lists, parseTraces traces with
+    | some st, some ts => showGenRes (PyIRCs.runFeed Gen.PyIRCs.prog ts none st)
+    | _, _ => "bad-op"
+  | _ => "bad-op"
+
+/-- `csreq <lists> <trace;…>` : the GENERATED `PyKdebugParser.callstacks` on an object whose two lists hold `<lists>`
+    (left by earlier requests), `self.traces(…)` delivering the trace objects; the result consumed to its end. -/
+def cmdCsReq : Cmd
+  | [lists, traces] =>
+    if csUnsupported then "unsupported" else
+    match parseImages lists, parseTraces traces with
+    | some st, some ts => showGenRes (PyIRCs.runRequest Gen.PyIRCs.prog ts none st)
+    | _, _ => "bad-op"
+  | _ => "bad-op"
+
+/-- The requests of a `cs` line through the GENERATED `callstacks()` / `feed_generator` on ONE object: every request starts
+    from the lists the previous one left. -/
+def csGenRequests (traceOfWindow : List Kevent → PyIRCs.Trace) (domOf : Nat → Bool) :
+    Callstacks.Images → List (List Kevent) → List String
+  | _, [] => []
+  | st, evs :: rest =>
+    let r := PyIRCs.runRequest Gen.PyIRCs.prog ((Pairing.run domOf evs).map traceOfWindow) none st
+    match r with
+    | (o, .ok st') => ("ok " ++ showOuts o) :: csGenRequests traceOfWindow domOf st' rest
+    | (_, .error e) => ("err " ++ e.name) :: csGenRequests traceOfWindow domOf st rest
+
+/-- `csgen …` : the arguments of `cs`, answered by the GENERATED `callstacks()` and `feed_generator` over the trace objects
+    of the windows (`PyIRCs.traceOf ∘ Callstacks.windowItem`; pairing and handlers as in `cs`). -/
+def cmdCsGen : Cmd
+  | ids :: doms :: recs =>
+    if csUnsupported then "unsupported" else
+    match (ids.splitOn "/").mapM parseNatList, parseNatList doms, (Callstacks.splitBar recs).mapM parseRecs with
+    | some groups, some ds, some reqs =>
+      if groups.length ≠ Callstacks.codeNames.length then "bad-op"
+      else
+        " | ".intercalate (csGenRequests
+          (fun w => PyIRCs.traceOf (KdVerif.Callstacks.windowItem (Callstacks.nameOfGroups groups) w))
+          (fun eid => ds.contains eid) KdVerif.Callstacks.Images.empty reqs)
+    | _, _, _ => "bad-op"
+  | _ => "bad-op"
+
+/-- `csircheck` : are the generated terms the expected ones (`C15.source_is_expected_ir`)? -/
 def cmdCsCheck : Cmd := fun _ =>
   let d : List String :=
     (if Gen.PyIRCs.insertImage = KdVerif.PyIRCs.Expected.insertImage then [] else ["insert_image"]) ++
     (if Gen.PyIRCs.frameLoop = KdVerif.PyIRCs.Expected.frameLoop then [] else ["feed_generator-frame-loop"]) ++
+    (if Gen.PyIRCs.init = KdVerif.PyIRCs.Expected.init then [] else ["__init__"]) ++
+    (if Gen.PyIRCs.feedGenerator = KdVerif.PyIRCs.Expected.feedGenerator then [] else ["feed_generator"]) ++
+    (if Gen.PyIRCs.callstacks = KdVerif.PyIRCs.Expected.callstacks then [] else ["PyKdebugParser.callstacks"]) ++
     (if Gen.PyIRCs.notes.isEmpty then [] else ["notes"])
   if d.isEmpty then "same" else "differs " ++ ",".intercalate d ++ (if csUnsupported then " unsupported" else "")
 
 def commands : List (String × Cmd) :=
-  [("pyir", cmdPyIR), ("pyircheck", cmdCheck), ("csir", cmdCsIR), ("csircheck", cmdCsCheck)]
+  [("pyir", cmdPyIR), ("pyircheck", cmdCheck), ("csir", cmdCsIR), ("csircheck", cmdCsCheck), ("csfeed", cmdCsFeed),
+   ("csreq", cmdCsReq), ("csgen", cmdCsGen)]
 
 end Driver.PyIR
